@@ -8,7 +8,7 @@ USES_FACTS = False
 DRIVER = "shootmodel_map"
 
 MANIFEST = dict(
-    text="Lean 4 theorems over the path tables (prepareReadPaths, nilCheckRead, nilCheckWrite, CoveredBy) and the guarded statements of mapper.tmpl evaluated in Except: for EVERY nil assignment to the reading side and every receiver state, ToX/FromX do not panic and compute the ideal result (each statement executed completely or skipped), FromX is independent of the receiver, nil in gives nil out; finding region F_ptrMapper (mapper type embedded by pointer) with witness theorem; cyclic embeddings (self / mutual / inner, either side) are part of WF (C09_selfEmbed_fixed). Accessor-mode sides (constructor path, promoted accessors) are region WFn where C15 has nothing to report: tied by the correspondence run alone (the theorems are about plain sides), incl. the ctoralloc keys (the generated constructor allocates every embedded pointer). Model tied to the code by executing the generated ToX/FromX under recover() for all 2^k nil masks (k<=7 quick, <=10 thorough, sampled above) x clean/dirty/nil receiver (a non-nil receiver must BE the returned pointer, its own content is what is compared) and comparing every result table; `map:` tags on embedded members (value / pointer) with deeper namesakes are part of the grammar; so are promoted fields called like a deeper embedded pointer type (5a8522e: WF09 has no name clause any more) and array types (bf4b467: slice -> array is not mapped); cases with cyclic embeddings are first run under a 3 GB / 60 s limit (no-hang assertion: a run that does not come back is the observation exit=crash/hang - a violation, never an infrastructure error).",
+    text="Lean 4 theorems over the path tables (prepareReadPaths, nilCheckRead, nilCheckWrite, CoveredBy) and the guarded statements of mapper.tmpl evaluated in Except: for EVERY nil assignment to the reading side and every receiver state, ToX/FromX do not panic and compute the ideal result (each statement executed completely or skipped), FromX is independent of the receiver, nil in gives nil out; finding region F_ptrMapper (mapper type embedded by pointer) with witness theorem; cyclic embeddings (self / mutual / inner, either side) are part of WF (C09_selfEmbed_fixed). Accessor-mode sides (constructor path, promoted accessors) are region WFn where C15 has nothing to report: tied by the correspondence run alone (the theorems are about plain sides), incl. the ctoralloc keys (the generated constructor allocates every embedded pointer). Model tied to the code by executing the generated ToX/FromX under recover() for all 2^k nil masks (k<=7 quick, <=10 thorough, sampled above) x clean/dirty/nil receiver (a non-nil receiver must BE the returned pointer, its own content is what is compared) and comparing every result table; `map:` tags on embedded members (value / pointer) with deeper namesakes are part of the grammar; so are promoted fields called like a deeper embedded pointer type (5a8522e: WF09 has no name clause any more) and array types (bf4b467: slice -> array is not mapped); cases with cyclic embeddings are first run under a 3 GB / 60 s limit (no-hang assertion: a run that does not come back is the observation exit=crash/hang - a violation, never an infrastructure error). Session 3: WF09 itself is derived from clauses about the INPUT (C09_WF_of_input / C09_no_panic_input: plain sides, mapper not embedded by pointer, every field name resolves, no skip-shadow) - the per-statement clauses 'the generator's Path is the path Go resolves the selector to' follow from C09_selector_agrees (the field collector keeps the leaf Go selects); C09_obs_spec: the model's whole observation list equals the specification's for ALL mask and slot lists. Hand-written constructors next to non-shoot-new types are a generator dimension (seeded change C09-14).",
     note="Lean kernel + standard axioms; the closure of the emitted guard/allocation lists (outer pointer first) is derived from the generator's sort.Strings (C09_tables_closed; byte-wise lexicographic order modelled on List Nat), WF09 keeps only input-level clauses (selector resolution agrees with the generator's Path, no promoted field named like an embedded pointer type); correspondence via vo.ObserveMap.",
     technique="Lean 4 proof (guard-chain / allocation-chain lemmas, statement = ideal statement) + exhaustive nil-mask execution of generated mappers",
     design="5/C09")
